@@ -423,6 +423,9 @@ def scaling(chk, repo, mw, d, eq):
             return Opaque('world')
         if isinstance(f, FuncRef) and f.node.name == 'build_world':
             recorded['built'] = (args[0], args[1])
+            if fr.fname == 'scale_from_world' and 'new_config' not in recorded:
+                # the scaled configuration handed straight to the builder (no merge with the parent's through build_from_world)
+                recorded['new_config'] = args[1] if len(args) > 1 else kwargs.get('world_config'); recorded['new_name'] = args[0] if args else kwargs.get('world_name')
             return Obj(name='newworld', attrs={'name': args[0], 'config': args[1]})
         return NotImplemented
     mh_ = repo.by_path('TidalPy/structures/layers/helper.py'); fg_ = need_func(mh_, 'find_geometry_from_config')
